@@ -119,6 +119,14 @@ def run_case(case):
                 await proto.close()
                 log.append((i, "close", open_count()))
             else:
+                if s.get("final"):
+                    # 'once faults stop': let every network event still in flight (late answers, resets, ICMP
+                    # errors scheduled by earlier fault scripts) arrive before the fault-free request starts
+                    await asyncio.sleep(EPS)  # events already popped from the net but still in the ready queue
+                    last = net.last_event_time()
+                    while last is not None:
+                        await asyncio.sleep(max(0.0, last - world.clock.now) + EPS)
+                        last = net.last_event_time()
                 net.begin_script(s["faults"], {"k": "ok"}, s["connects"])
                 rec = await C.do_execute(world, proto, {"op": "read", "reg": 35100 + i, "count": 2}, "req%d" % i)
                 rec["open_after"] = open_count()
